@@ -134,7 +134,7 @@ pub fn c04_lea_mem() {
     let uses_bp = match d.shape { 1 => NT_base_index_reg_val_ID[d.reg as usize] == ID_bp, 2 | 4 => NT_base_reg_val_ID[d.base as usize] == ID_bp, _ => false };
     let seg = if d.ovr { r16(&pre, NT_seg_reg_ID[d.seg as usize]) } else if uses_bp { pre.ss } else { pre.ds };
     let region = (seg.wrapping_sub(pre.ds) & 0x0FFF) != 0;
-    vassert_kf!("C04.lea.offset", regs(&vm) == exp, "KF-C04-lea-nonDS", region);
+    vassert_kf!("C04.lea.offset", regs(&vm) == exp, KF_C04_lea_nonDS, region);
     vassert!("C04.lea.flags", regs(&vm).flag == pre.flag);
     vassert!("C04.lea.mem", vm.mem[w_p] == w_pv);
     vcover!("C04.lea.cover.outside_region_override", d.ovr && !region && seg != pre.ds);
